@@ -47,8 +47,10 @@ EXPORT void reim4_fftvec_addmul_simple(uint32_t m, double* r, const double* a, c
   static REIM4_FFTVEC_ADDMUL_PRECOMP precomp[32];
   REIM4_FFTVEC_ADDMUL_PRECOMP* p = precomp + log2m(m);
   if (!p->function) {
+    SPQLIOS_VERIF_EVENT(1, 14, log2m(m), 0, 0, 0);
     if (!init_reim4_fftvec_addmul_precomp(p, m)) abort();
   }
+  SPQLIOS_VERIF_EVENT(2, 14, log2m(m), p->m, 0, 0);
   p->function(p, r, a, b);
 }
 
@@ -91,7 +93,9 @@ EXPORT void reim4_fftvec_mul_simple(uint32_t m, double* r, const double* a, cons
   static REIM4_FFTVEC_MUL_PRECOMP precomp[32];
   REIM4_FFTVEC_MUL_PRECOMP* p = precomp + log2m(m);
   if (!p->function) {
+    SPQLIOS_VERIF_EVENT(1, 15, log2m(m), 0, 0, 0);
     if (!init_reim4_fftvec_mul_precomp(p, m)) abort();
   }
+  SPQLIOS_VERIF_EVENT(2, 15, log2m(m), p->m, 0, 0);
   p->function(p, r, a, b);
 }
